@@ -70,10 +70,10 @@ func storeList(c *fw.Ctx) []storeCfg {
 		return []storeCfg{
 			mk("plain-v1", false, appendable.NoCompression, 1, 2, sizes[r.IntN(3)], 3, vc[r.IntN(3)], 0, true),
 			mk("embedded-v0", true, appendable.NoCompression, 0, 1, sizes[r.IntN(3)], 3, 0, 4, true),
-			mk("zlib-v1", false, appendable.ZLibCompression, 1, 1, sizes[r.IntN(3)], 3, vc[r.IntN(3)], 2, false),
-			mk("lzw-v0", false, appendable.LZWCompression, 0, 2, sizes[r.IntN(3)], 3, vc[r.IntN(3)], 0, false),
-			mk("flate-v1", false, appendable.FlateCompression, 1, 3, sizes[r.IntN(3)], 3, 0, 4, false),
-			mk("gzip-v0", false, appendable.GZipCompression, 0, 1, sizes[r.IntN(3)], 3, vc[r.IntN(3)], 0, false),
+			mk("zlib-v1", false, appendable.ZLibCompression, 1, 1, sizes[r.IntN(3)], 2, vc[r.IntN(3)], 2, false),
+			mk("lzw-v0", false, appendable.LZWCompression, 0, 2, sizes[r.IntN(3)], 2, vc[r.IntN(3)], 0, false),
+			mk("flate-v1", false, appendable.FlateCompression, 1, 3, sizes[r.IntN(3)], 2, 0, 4, false),
+			mk("gzip-v0", false, appendable.GZipCompression, 0, 1, sizes[r.IntN(3)], 2, vc[r.IntN(3)], 0, false),
 		}
 	}
 	var out []storeCfg
@@ -292,8 +292,8 @@ func Run(c *fw.Ctx) {
 		m.multi(mr, c.N(250, 22000))
 		if cf.VCache > 0 {
 			// twins of value-extent cases that start with an unchecked export of every tx (what fills the value cache
-			// without validation); every second one in quick
-			step := c.N(2, 1)
+			// without validation); every third one in quick
+			step := c.N(3, 1)
 			nv := 0
 			for _, cs := range m.cases {
 				if strings.HasPrefix(cs.Field, "val") {
